@@ -308,6 +308,8 @@ let xdel_of (r : lstate * xout) : ((lstate * msg list) * z) * ierr option =
   | (s', XDel (ms, sz, eo)) -> (((s', ms), sz), eo)
   | (s', _) -> (((s', []), Z0), None)
 
+let rec nat_of_int0 i = if i <= 0 then O else S (nat_of_int0 (i - 1))
+
 let far_time = z_of_string "4000000000000000000"
 
 let observe_dir st (l : seg list) (ro : bool) : string list =
@@ -440,6 +442,14 @@ let step st (f : string array) : string list =
     (match get_cfg st.s with
      | Err e -> [err e]
      | Ok _ -> [fmt_trim st.s.segs (xdel_of (xh_step h st.s (XDeleteMulti (parse_offsets (a 1))))) st])
+  | "delmb" | "trimob" ->
+    (match get_cfg st.s with
+     | Err e -> [err e]
+     | Ok _ ->
+       let bk = nat_of_int0 (int_of_string (a 1)) in
+       let op = (if a 0 = "delmb" then XDeleteMultiBackoff (bk, parse_offsets (a 2))
+                 else XTrimByOffsetBackoff (bk, z_of_string (a 2))) in
+       [fmt_trim st.s.segs (xdel_of (xh_step h st.s op)) st])
   | "size" ->
     (match get_cfg st.s with
      | Err e -> [err e]
@@ -924,6 +934,18 @@ let run_check (path : string) =
          | _ -> ());
         (match o with OOk (_, ms) -> ignore (apply_deleted "C12" ms r) | OErr _ -> ())
       end
+    | ["delmb"; _; _] | ["trimob"; _; _] ->
+      (* a multi-pass helper stopped by its backoff function: whatever it returns - with or without the error - is what
+         it removed (every later scan is judged against the log minus exactly these messages) *)
+      (match r with
+       | "err" :: _ :: _ :: _ :: ms | "ok" :: _ :: _ :: ms ->
+         let msl = List.map parse_full_msg ms in
+         (match !cur_op with
+          | ["trimob"; _; b] when not c.tainted ->
+            chk "C15" "trim_by_offset_stopped" (List.for_all (fun m -> Z.ltb m.moff (z_of_string b)) msl) r
+          | _ -> ());
+         ignore (apply_deleted "C12" msl r)
+       | _ -> if not c.tainted then chk "C12" "delete_multi_backoff_result" false r)
     | ["delm"; offs] ->
       (match r with
        | "err" :: cl :: sz :: _ :: ms ->
